@@ -270,6 +270,10 @@ class C13Run(E2Run):
                     self.probe("c13_lifecycle_request_refused")
                 elif allowed:
                     self.probe("c13_lifecycle_request_accepted")
+        if sw is not None and kind == "application" and len(req) == 6 and verb == "execute" and pre_state == "INSTALLING":
+            self.probe("c13_execute_while_installing")
+            if accepted:
+                raise Violation("C13", "request-accepted-outside-documented-source-states", f"{hn}/{name} (INSTALLING, node {node.operating_state.name}): execute answered success", sig="request-accepted-outside-documented-source-states:application:execute:INSTALLING", detail={"software": name})
         self.observe(f"after request {req[2:]}", cause="request", target=(hn, name), verb=verb if (kind or verb in ("shutdown", "startup", "reset")) else "other", accepted=accepted)
         self.check_registries(f"after request {req[2:]}")
         return resp
@@ -322,7 +326,27 @@ class C13Run(E2Run):
                 self.emit(["req", base + ["application", r.choice(apps), r.choice(["close", "execute", "fix", "scan"])], "F4_app"])
             elif x < 0.80:
                 appn = r.choice(installable + apps)
-                self.emit(["req", base + ["software_manager", "application", r.choice(["install", "uninstall", "install"]), appn], "F4_install"])
+                verb_i = r.choice(["install", "uninstall", "install"])
+                self.emit(["req", base + ["software_manager", "application", verb_i, appn], "F4_install"])
+                if verb_i == "install" and r.random() < 0.5:
+                    # use the application while it is still installing (pointed at the database server first, so that
+                    # executing it would do something)
+                    roles = self.inv.get("roles", {})
+                    db_ip = self.inv["hosts"].get(roles.get("db"), {}).get("ip")
+                    pw = roles.get("db_password")
+                    conf = {"database-client": ("configure-database-client", {"server_ip_address": db_ip, "server_password": pw}), "ransomware-script": ("configure-ransomware-script", {"server_ip_address": db_ip, "server_password": pw, "payload": "ENCRYPT"}), "dos-bot": ("configure-dos-bot", {"target_ip_address": db_ip, "max_sessions": 3, "dos_intensity": 1.0, "port_scan_p_of_success": 1.0})}.get(appn)
+                    if conf and db_ip:
+                        from primaite.game.agent.actions.abstract import AbstractAction
+
+                        cls = AbstractAction._registry[conf[0]]
+                        try:
+                            self.emit(["req", jsonable(cls.form_request(cls.ConfigSchema(node_name=hn, **{k: v for k, v in conf[1].items() if v is not None}))), "F4_app"])
+                        except Exception:
+                            pass
+                    for _ in range(r.randint(1, 2)):
+                        self.emit(["req", base + ["application", appn, r.choice(["execute", "execute", "scan", "close", "fix"])], "F4_app"])
+                        if r.random() < 0.4:
+                            self.emit(["tick"])
             elif x < 0.86:
                 self.emit(["req", base + [r.choice(["shutdown", "startup", "reset"])], "F1_power"])
             elif x < 0.94 and len(self.hosts) >= 2:
